@@ -14,6 +14,7 @@ EXPLANATION = (
     "first; (3) order() turns a re-entered 'Inserting' node into Err and compile() maps that Err to 'Dependency cycle' "
     "errors and returns before type checking; (4) the `start` call is appended after all statements; (5) ordering "
     "containers are BTreeMap/BTreeSet keyed by variable id (deterministic, source order for independent statements)."
+    ' (START, IMPORT-PASS) the entry point and the imports do not depend on the order of `use` lines (IMPORT-PASS is a known finding); no annotation position is exempt from VISIT-dep.'
 )
 UNDECIDED = (
     "behavioural equivalence of permuted programs when independent initialisers have side effects; "
@@ -33,6 +34,8 @@ def run(F, rep, tier):
     init_order_keys(F, rep)
     import c05
     c05.start_rules(F, rep)
+    import c12
+    c12.import_pass(F, rep)
 
 
 def dependency_visit(F, rep):
